@@ -46,7 +46,8 @@ def gen(tier, rng):
             bins[i] = max(_divs(cur[i]))
         tabs = []
         for _t in range(rng.choice([0, 1, 1, 2, 3])):
-            tabs.append([rng.choice(["q", "q", "time", "sky"]), rng.randrange(nd), rng.randrange(10 ** 6)])
+            kinds = ["q", "q"] + [k for k in ("time", "sky") if k not in [t[0] for t in tabs]]   # one Time / SkyCoord at most
+            tabs.append([rng.choice(kinds), rng.randrange(nd), rng.randrange(10 ** 6)])
         key = f"{fam}|{shape}|{pre}|{pre_arg}|{bins}|{tabs}"
         cases.append({"key": key, "stratum": f"{fam}-{pre}", "fam": fam, "shape": shape, "pre": pre, "pre_arg": pre_arg,
                       "bins": bins, "tabs": tabs, "nontrivial": any(b > 1 for b in bins),
@@ -65,6 +66,15 @@ def _table(kind, n, seed):
     if kind == "time":
         return Time("2020-01-01T00:00:00") + np.abs(vals) * 64 * u.s
     return SkyCoord(np.abs(vals) * u.deg / 8, (vals / 16) * u.deg)
+
+
+def _time_table(cube):
+    from astropy.time import Time
+    from ndcube.extra_coords.table_coord import TimeTableCoordinate
+    for _axes, coord in cube.extra_coords._lookup_tables:
+        if isinstance(coord, TimeTableCoordinate):
+            return np.atleast_1d((coord.table - Time("2020-01-01T00:00:00")).sec).astype(float)
+    raise LookupError("no time table")
 
 
 def _base_pixels(ll, nd, vectors, base):
@@ -90,7 +100,10 @@ def run(case):
     wcs = lin_wcs(nd) if fam == "lin" else family_wcs(fam, nd)
     cube = NDCube(np.arange(int(np.prod(shape)), dtype=float).reshape(shape), wcs=wcs)
     for i, (kind, ax, seed) in enumerate(case["tabs"]):
-        cube.extra_coords.add(f"c{i}", ax, _table(kind, shape[ax], seed))
+        # distinct physical types: axis_world_coords_values builds a namedtuple from them
+        ptypes = {"q": f"custom:c{i}", "time": None, "sky": None}[kind]
+        cube.extra_coords.add((f"c{i}", f"c{i}b") if kind == "sky" else f"c{i}", ax, _table(kind, shape[ax], seed),
+                              physical_types=ptypes)
     src = cube
     if case["pre"] == "sliced":
         src = cube[Q.dec_items(case["pre_arg"])]
@@ -154,32 +167,36 @@ def run(case):
             sv = rv = None
         if sv is not None:
             names_s, names_r = list(sv._fields), list(rv._fields)
-            if names_s != names_r:
-                why.append(f"extra coordinate names/order changed by rebin: {names_s} -> {names_r}")
+            if sorted(names_s) != sorted(names_r):
+                why.append(f"extra coordinate names changed by rebin: {names_s} -> {names_r}")
             else:
-                # which array axis each coordinate lives on
-                ax_of = {}
-                fi = 0
-                mapping = src.extra_coords.mapping
-                for (kind, ax, seed), pixax in zip(case["tabs"], mapping):
-                    ncomp = 2 if kind == "sky" else 1
-                    for _c in range(ncomp):
-                        ax_of[fi] = (ax if case["pre"] != "sliced" else ax, kind)
-                        fi += 1
-                for i, (a, b) in enumerate(zip(sv, rv)):
-                    ax, kind = ax_of.get(i, (None, None))
-                    if ax is None:
+                # identify every returned coordinate by its physical type (their order is C02's subject)
+                which = {}
+                for ti, (kind, ax, seed) in enumerate(case["tabs"]):
+                    if kind == "q":
+                        which[f"custom_c{ti}"] = (ax, kind)
+                    elif kind == "time":
+                        which["time"] = (ax, kind)
+                    else:
+                        which["pos_eq_ra"] = (ax, kind)
+                        which["pos_eq_dec"] = (ax, kind)
+                for name in names_s:
+                    if name not in which:
                         continue
-                    a, b = np.asarray(a.value, dtype=float), np.asarray(b.value, dtype=float)
+                    ax, kind = which[name]
+                    a = np.asarray(getattr(sv, name).value, dtype=float)
+                    b = np.asarray(getattr(rv, name).value, dtype=float)
+                    if kind == "time":
+                        # the values form is relative to a reference time that slicing keeps and interpolation
+                        # resets: compare absolute times (seconds since a fixed epoch) taken from the tables
+                        a, b = _time_table(src), _time_table(r)
                     f = bins[ax]
                     pos = np.arange(nout[ax]) * f + (f - 1) / 2
                     exp = np.interp(pos, np.arange(len(a)), a)
-                    rel = kind == "time"
+                    rel = False
                     tol = 1e-5 if kind == "time" else 1e-9
-                    if rel:
-                        exp = exp - exp[0]
-                    if b.shape != exp.shape or not np.allclose(b, exp, rtol=tol, atol=tol * max(1.0, float(np.max(np.abs(exp))) if exp.size else 1.0)):
-                        why.append(f"extra coordinate {names_s[i]}: rebinned values {b.tolist()} are not the source table at the block centres {exp.tolist()}")
+                    if b.shape != exp.shape or not np.allclose(b, exp, rtol=tol, atol=tol * (max(1.0, float(np.max(np.abs(exp)))) if exp.size else 1.0)):
+                        why.append(f"extra coordinate {name}: rebinned values {b.tolist()} are not the source table at the block centres {exp.tolist()}")
                         break
                     out["tabs"].append({"vals": [Fr(float(x)) for x in a], "len": len(a), "f": f, "rel": rel,
                                         "tol": Fr(1, 100000) if rel else Fr(1, 10 ** 9), "impl": [Fr(float(x)) for x in b]})
